@@ -7,15 +7,17 @@ SPEC = {
     "suites": [
         Suite(name="start", harness="vh_start", runner="start",
               model_deps=["theories/Model/Start.vo"],
-              quick_n=1500, thorough_n=20000, timeout=1500,
+              quick_n=1800, thorough_n=20000, timeout=1500,
               rule="the harness binary re-executes itself as an instrumented application main (start_test.go's technique) that "
                    "logs the marker variables it finds and calls the REAL telemetry.Start with the telemetry directory "
                    "redirected; the sidecar Start launches is the same binary and logs too; a symlink `go` first on PATH "
                    "makes the uploader's `go mod download` land in the same binary, which logs the marker it inherited and "
                    "calls Start with Upload+ReportCrashes like the go command; a depth counter bounds a (mutated) recursion; "
-                   "all descendants hold a pipe so a case ends when every process it caused has exited. Cases: the full "
-                   "table marker {unset, \"\", 1, 2, x} x ReportCrashes x Upload x mode {on, local, off, garbage} x token "
-                   "{absent, 1h, 25h} (240), then generated cases adding more markers (0, 11, \" 1\", true, 3), 14 mode-file "
+                   "all descendants hold a pipe so a case ends when every process it caused has exited. The application "
+                   "enters telemetry by Start alone or by MaybeChild first and Start later (the cmd/go pattern; the sidecar "
+                   "is the same program, the fake go command always uses the MaybeChild pattern). Cases: the full "
+                   "table entry {Start, MaybeChild-then-Start} x marker {unset, \"\", 1, 2, x} x ReportCrashes x Upload x mode {on, local, off, garbage} x token "
+                   "{absent, 1h, 25h} (480), then generated cases adding more markers (0, 11, \" 1\", true, 3), 14 mode-file "
                    "contents incl. absent/near-off, token ages (0, 1min, 23h50, future, 24h10, 25h, 1y), upload variable "
                    "pre-set, local/ and debug/ pre-existing, telemetry directory unreachable; observed per case: exit "
                    "status, whether Start returned, every process record (kind, marker, upload variable), token "
@@ -33,7 +35,8 @@ SPEC = {
                   "exec'ed only if marker empty, mode not off, local dir reachable, and crash reporting or (upload flag and "
                   "token acquired) - and exactly then (C16_launch_only_if, _launch_iff), for ALL marker/mode strings, flags, "
                   "times, token states; marker 1 or 2 execs nothing and the sidecar's first effect sets marker 2 "
-                  "(C16_no_exec_in_child, _child_sets_marker_first); every process caused to any depth is the one sidecar or "
+                  "(C16_no_exec_in_child, _child_sets_marker_first), by either entry point - Start or MaybeChild-then-Start - "
+                  "(C16_entry_points_agree, _child_marks_environment, _marker2_inert, _*_any_entry); every process caused to any depth is the one sidecar or "
                   "a delegated program that finds marker 2, at most one sidecar per application, none below a sidecar "
                   "(C16_process_tree_shape, _sidecars_bounded, _no_recursion); mode off: nothing launched by anybody, the "
                   "application's Start only reads the mode file (C16_off_inert_*); for EVERY schedule of ANY number of "
